@@ -77,15 +77,15 @@ type queuesInv struct {
 	closedPending []int64
 	lastClosed    int64
 	// statistics
-	kindsReleased map[string]int
-	regEpochs     map[int64]bool
+	kindsReleased         map[string]int
+	regEpochs             map[int64]bool
 	releasedUnderChangedN int
 	catchUp               int
 	heldPlaced, notHeld   int
 	prevReleased          map[string]bool
 	// model-owned registry: consensus addresses each operator has set and that have not been
 	// pruned / removed yet (independent of the chain's own "previous key" bookkeeping)
-	owned          []map[string]bool
+	owned           []map[string]bool
 	replacedInEpoch map[int]int64 // operator -> epoch of its first not-yet-matured replacement
 }
 
@@ -381,7 +381,9 @@ func (q *queuesInv) After(m *Machine, a *Action, o Outcome) error {
 	return nil
 }
 
-func (q *queuesInv) isEntryJustReleased(key string, due map[int64]bool) bool { return q.prevReleased[key] }
+func (q *queuesInv) isEntryJustReleased(key string, due map[int64]bool) bool {
+	return q.prevReleased[key]
+}
 
 func (q *queuesInv) dueNowHas(e int64) bool {
 	for _, x := range q.closedPending {
